@@ -311,6 +311,41 @@ def check_nested(rec, vals, vals2):
                      f'{ {c: got[c] for c in inner} }')
 
 
+def check_forms(rec, h, w, vals):
+    """the same rectangle written as a bounded range, as whole columns and
+    as whole rows of a data sheet (one workbook after another in one process,
+    with the same sheet titles and different sizes)"""
+    if h * w == 1 or all(v is None for v in vals):
+        return
+    # the used area must end at the rectangle's corner
+    if vals[-1] is None:
+        vals = list(vals[:-1]) + [0]
+    case = dict(kind='forms', h=h, w=w, vals=list(vals))
+    rec.case(key=('forms', h, w, repr(vals)),
+             nontrivial=len(classes_of(vals)) >= 2, labels=('forms',),
+             sample=case)
+    data = {k: v for k, v in cells_for(h, w, vals).items() if v is not None}
+    forms = {'bounded': f'D!{rng(h, w)}', 'columns': f'D!A:{COLS[w - 1]}',
+             'rows': f'D!1:{h}'}
+    cells = {}
+    for i, func in enumerate(FUNCS):
+        for j, (name, text) in enumerate(forms.items()):
+            cells[f'{COLS[j]}{i + 1}'] = f'={func}({text})'
+    try:
+        model = compile_spec({'sheets': {'D': data, 'F': cells}})
+        for i, func in enumerate(FUNCS):
+            want = expected(func, vals)
+            for j, name in enumerate(forms):
+                got = model.evaluate(f'F!{COLS[j]}{i + 1}')
+                if not ok(want, got):
+                    rec.fail(f'forms:{func}:{name}', case,
+                             f'{cells[COLS[j] + str(i + 1)]} over a {h}x{w} '
+                             f'sheet {vals} = {got!r}, expected {want!r}')
+                    return
+    except Exception as exc:
+        rec.fail(f'forms:raises:{exc_key(exc)}', case, repr(exc)[:300])
+
+
 # -- shards -------------------------------------------------------------------
 
 PURITY_TEMPLATES = ['=SUM(A1:B1)',
@@ -370,6 +405,8 @@ def run_shard(shard, rec):
             (h, w, vals, seed), with_sp = case
             before = dict(rec.fail_counts)
             check_rect(ctx, h, w, vals, seed)
+            if seed % 4 == 0:
+                check_forms(rec, h, w, vals)
             if with_sp:
                 import random
                 rnd = random.Random(seed)
@@ -419,7 +456,9 @@ def replay(case, rec):
             check_nested(rec, case[0], case[1])
         return
     kind = case['kind']
-    if kind == 'rect':
+    if kind == 'forms':
+        check_forms(rec, case['h'], case['w'], case['vals'])
+    elif kind == 'rect':
         check_rect((rec, env), case['h'], case['w'], case['vals'],
                    case.get('seed', 0))
     elif kind == 'sumproduct':
